@@ -432,7 +432,7 @@ Section GenericCall.
   Variable run : list op -> state -> state * list event * status.
   Hypothesis run_le : forall ops st, Inv st -> le st (fst (fst (run ops st))).
   Variable env : envt.
-  Variable args : list Z.
+  Variable args : list val.
 
   Definition the_call (h : handler) (ret : option Z) : call_sig := (h_key h, h_cb h, argv_of h args, ret).
 
@@ -564,30 +564,59 @@ Section GenericCall.
 End GenericCall.
 
 (* ================= every operation, every script table, every fuel ================= *)
+(* the loop of one emit, over the snapshot taken from the state it starts in *)
+Definition emit_core (f : nat) (env : envt) (s n : Z) (vargs : list val) (st : state)
+  : state * list event * status * bool :=
+  emit_loop (call_callback (run_seq (run_op f env)) env vargs) s n (handlers st s n) st false.
+
 Lemma run_op_le : forall fuel env o st, Inv st -> le st (fst (fst (run_op fuel env o st))).
 Proof.
   induction fuel as [|f IH]; intros env o st Hi.
-  - destruct o; cbn [run_op fst].
+  - destruct o; cbn [run_op fst]; try (apply le_refl; auto).
     + apply register_le; auto.
     + apply connect_le; auto.
     + apply disconnect_le; auto.
     + apply disconnect_by_key_le; auto.
-    + apply le_refl; auto.
     + apply kill_le; auto.
     + pose proof (reap_le env true st Hi). destruct (reap env true st); auto.
-  - destruct o; cbn [run_op fst].
-    + apply register_le; auto.
-    + apply connect_le; auto.
-    + apply disconnect_le; auto.
-    + apply disconnect_by_key_le; auto.
-    + destruct (emit_loop _ s n (handlers st s n) st false) as [[[st1 ch] s1] res] eqn:El.
+  - assert (core_le : forall s n vargs st0, Inv st0 -> le st0 (fst (fst (fst (emit_core f env s n vargs st0))))).
+    { intros s n vargs st0 Hi0. unfold emit_core.
+      destruct (emit_loop _ s n (handlers st0 s n) st0 false) as [[[st1 ch] s1] res] eqn:El.
       cbn [fst].
       eapply (emit_loop_spec (run_seq (run_op f env))) in El; auto.
       * tauto.
-      * intros ops st0 Hi0. apply run_seq_le; auto.
-      * intros h Hh. apply (proj2 (Hi s n)). unfold keys. apply in_map; auto.
+      * intros ops st2 Hi2. apply run_seq_le; auto.
+      * intros h Hh. apply (proj2 (Hi0 s n)). unfold keys. apply in_map; auto. }
+    destruct o; cbn [run_op fst].
+    + apply register_le; auto.
+    + apply connect_le; auto.
+    + apply disconnect_le; auto.
+    + apply disconnect_by_key_le; auto.
+    + pose proof (core_le s n (map VInt args) st Hi) as Hl. unfold emit_core in Hl.
+      destruct (emit_loop _ s n (handlers st s n) st false) as [[[st1 ch] s1] res]. exact Hl.
     + apply kill_le; auto.
     + pose proof (reap_le env true st Hi). destruct (reap env true st); auto.
+    + pose proof (core_le s n [VSelf s] st Hi) as Hl. unfold emit_core in Hl.
+      destruct (emit_loop _ s n (handlers st s n) st false) as [[[st1 ch] s1] res]. exact Hl.
+    + destruct (wstate st s =? v); [apply le_refl; auto|].
+      pose proof (core_le s nc [VSelf s; VInt v] st Hi) as H1. unfold emit_core in H1.
+      destruct (emit_loop _ s nc (handlers st s nc) st false) as [[[st1 ch1] s1] r1]. cbn [fst] in H1.
+      destruct s1; [|exact H1].
+      set (st2 := set_wstate st1 _).
+      assert (Hc : same_core st1 st2) by (repeat split).
+      pose proof (core_le s np [VSelf s; VInt (wstate st s)] st2 (same_core_Inv _ _ Hc (le_inv _ _ H1))) as H2.
+      unfold emit_core in H2.
+      destruct (emit_loop _ s np (handlers st2 s np) st2 false) as [[[st3 ch2] s3] r3]. cbn [fst] in *.
+      eapply le_trans; [exact H1|]. eapply le_same_core_l; eauto.
+    + pose proof (core_le s nc [VSelf s; VInt v] st Hi) as H1. unfold emit_core in H1.
+      destruct (emit_loop _ s nc (handlers st s nc) st false) as [[[st1 ch1] s1] r1]. cbn [fst] in H1.
+      destruct s1; [|exact H1].
+      set (st2 := set_wstate st1 _).
+      assert (Hc : same_core st1 st2) by (repeat split).
+      pose proof (core_le s np [VSelf s; VInt (wstate st1 s)] st2 (same_core_Inv _ _ Hc (le_inv _ _ H1))) as H2.
+      unfold emit_core in H2.
+      destruct (emit_loop _ s np (handlers st2 s np) st2 false) as [[[st3 ch2] s3] r3]. cbn [fst] in *.
+      eapply le_trans; [exact H1|]. eapply le_same_core_l; eauto.
 Qed.
 
 Lemma run_seq_run_op_le fuel env ops st : Inv st -> le st (fst (fst (run_seq (run_op fuel env) ops st))).
@@ -638,39 +667,29 @@ Proof.
   rewrite !map_map in H. cbn [fst] in H. exact H.
 Qed.
 
-Section Emit.
-  Variables (f : nat) (env : envt) (s n : Z) (args : list Z) (st st' : state) (evs : list event) (status : status).
+Section Core.
+  Variables (f : nat) (env : envt) (s n : Z) (vargs : list val) (st st' : state) (ch : list event)
+            (status : status) (res : bool).
   Hypothesis Hinv : Inv st.
-  Hypothesis Hrun : run_op (S f) env (OEmit s n args) st = (st', evs, status).
+  Hypothesis Hrun : emit_core f env s n vargs st = (st', ch, status, res).
 
-  Lemma emit_unfold :
-    exists ch res,
-      emit_loop (call_callback (run_seq (run_op f env)) env args) s n (handlers st s n) st false = (st', ch, status, res) /\
-      evs = [EvEmit s n args ch (match status with Done => enc_bool res | Raised c => c end)].
-  Proof.
-    cbn [run_op] in Hrun.
-    destruct (emit_loop _ s n (handlers st s n) st false) as [[[st1 ch] s1] res] eqn:El.
-    inversion Hrun; subst. eauto.
-  Qed.
-
-  Lemma emit_spec :
-    exists ch res called,
-      evs = [EvEmit s n args ch (match status with Done => enc_bool res | Raised c => c end)] /\
-      le st st' /\
+  Lemma core_spec :
+    le st st' /\
+    exists called,
       sublist called (handlers st s n) /\
       map (fun c => (c_key c, c_cb c, c_argv c)) (direct_calls ch)
-        = map (fun h => (h_key h, h_cb h, argv_of h args)) called /\
+        = map (fun h => (h_key h, h_cb h, argv_of h vargs)) called /\
       (forall h, In h called -> wargs_alive st h) /\
       (status = Done ->
          (forall h, In h (handlers st s n) -> In (h_key h) (keys st' s n) -> wargs_alive st' h -> In h called) /\
          (forall c, In c (direct_calls ch) -> c_ret c <> None) /\
          res = existsb ret_truthy (direct_calls ch)).
   Proof.
-    destruct emit_unfold as [ch [res [El ->]]].
-    eapply (emit_loop_spec (run_seq (run_op f env))) in El; auto.
-    - destruct El as [Hl [called [Hsub [Hsig [Hstart Hdone]]]]].
-      exists ch, res, called.
-      split; [reflexivity|]. split; [exact Hl|]. split; [exact Hsub|]. split; [exact Hsig|].
+    unfold emit_core in Hrun.
+    eapply (emit_loop_spec (run_seq (run_op f env))) in Hrun; auto.
+    - destruct Hrun as [Hl [called [Hsub [Hsig [Hstart Hdone]]]]].
+      split; [exact Hl|]. exists called.
+      split; [exact Hsub|]. split; [exact Hsig|].
       split; [intros h Hh; apply Hstart; auto|].
       intros Hd. destruct (Hdone Hd) as [H1 [H2 Hr]].
       split; [exact H1|]. split; [exact H2|]. rewrite Hr. reflexivity.
@@ -678,41 +697,39 @@ Section Emit.
     - intros h Hh. apply (proj2 (Hinv s n)). unfold keys. apply in_map; auto.
   Qed.
 
-  (* each emit calls a subsequence of the handlers connected when it started: in connection
+  Lemma core_le : le st st'.
+  Proof. exact (proj1 core_spec). Qed.
+
+  (* the emit calls a subsequence of the handlers connected when it started: in connection
      order, each at most once; one that is still connected when the emit returns (hence was
      connected throughout: a removed key never comes back) and whose weak arguments are alive
      is called exactly once *)
-  Lemma emit_exactly_once_in_order_proof :
-    exists ch out,
-      evs = [EvEmit s n args ch out] /\
-      sublist (called_keys ch) (keys st s n) /\
-      NoDup (called_keys ch) /\
-      (status = Done ->
-       forall h, In h (handlers st s n) -> In (h_key h) (keys st' s n) -> wargs_alive st' h ->
-                 count_occ Z.eq_dec (called_keys ch) (h_key h) = 1%nat).
+  Lemma core_exactly_once :
+    sublist (called_keys ch) (keys st s n) /\
+    NoDup (called_keys ch) /\
+    (status = Done ->
+     forall h, In h (handlers st s n) -> In (h_key h) (keys st' s n) -> wargs_alive st' h ->
+               count_occ Z.eq_dec (called_keys ch) (h_key h) = 1%nat).
   Proof.
-    destruct emit_spec as [ch [res [called [-> [Hl [Hsub [Hsig [Ha Hdone]]]]]]]].
+    destruct core_spec as [Hl [called [Hsub [Hsig [Ha Hdone]]]]].
     pose proof (map_c_key_called _ _ _ Hsig) as Hk.
     assert (Hs : sublist (called_keys ch) (keys st s n)).
     { rewrite Hk. unfold keys. apply sublist_map; auto. }
     assert (Hnd : NoDup (called_keys ch)).
     { eapply sublist_NoDup; eauto. apply Inv_NoDup; auto. }
-    eexists _, _. split; [reflexivity|]. split; auto. split; auto.
+    split; auto. split; auto.
     intros Hd h Hh Hk' Hal.
     apply NoDup_count_occ'; auto.
     rewrite Hk. apply in_map. apply Hdone; auto.
   Qed.
 
-  (* never called: not connected when the emit starts; or one of its weak arguments is dead *)
-  Lemma dead_or_disconnected_never_called_proof :
-    exists ch out,
-      evs = [EvEmit s n args ch out] /\
-      (forall k, ~ In k (keys st s n) -> ~ In k (called_keys ch)) /\
-      (forall h, In h (handlers st s n) -> ~ wargs_alive st h -> ~ In (h_key h) (called_keys ch)).
+  Lemma core_never_called :
+    (forall k, ~ In k (keys st s n) -> ~ In k (called_keys ch)) /\
+    (forall h, In h (handlers st s n) -> ~ wargs_alive st h -> ~ In (h_key h) (called_keys ch)).
   Proof.
-    destruct emit_spec as [ch [res [called [-> [Hl [Hsub [Hsig [Ha Hdone]]]]]]]].
+    destruct core_spec as [Hl [called [Hsub [Hsig [Ha Hdone]]]]].
     pose proof (map_c_key_called _ _ _ Hsig) as Hk.
-    eexists _, _. split; [reflexivity|]. split.
+    split.
     - intros k Hn Hc. apply Hn. rewrite Hk in Hc. unfold keys.
       eapply sublist_In; [apply sublist_map; eauto | auto].
     - intros h Hh Hna Hc. rewrite Hk in Hc. apply in_map_iff in Hc. destruct Hc as [h' [He Hin]].
@@ -723,14 +740,75 @@ Section Emit.
       subst h'. apply Hna. apply Ha; auto.
   Qed.
 
+  Lemma core_result :
+    status = Done ->
+    res = existsb ret_truthy (direct_calls ch) /\ forall c, In c (direct_calls ch) -> c_ret c <> None.
+  Proof.
+    intros Hd. destruct core_spec as [Hl [called [Hsub [Hsig [Ha Hdone]]]]].
+    destruct (Hdone Hd) as [_ [Hr ->]]. split; auto.
+  Qed.
+
+  Lemma core_args :
+    forall c, In c (direct_calls ch) ->
+      exists h, In h (handlers st s n) /\ c_key c = h_key h /\ c_cb c = h_cb h /\
+        c_argv c = map VObj (h_wargs h) ++ map VInt (h_uargs h) ++ vargs
+                     ++ match h_uarg h with Some u => [VInt u] | None => [] end.
+  Proof.
+    destruct core_spec as [Hl [called [Hsub [Hsig [Ha Hdone]]]]].
+    intros c Hc.
+    assert (Hin : In (c_key c, c_cb c, c_argv c) (map (fun h => (h_key h, h_cb h, argv_of h vargs)) called)).
+    { rewrite <- Hsig. apply (in_map (fun c => (c_key c, c_cb c, c_argv c))); auto. }
+    apply in_map_iff in Hin. destruct Hin as [h [He Hh]]. inversion He.
+    exists h. split; [eapply sublist_In; eauto|]. auto.
+  Qed.
+End Core.
+
+Section Emit.
+  Variables (f : nat) (env : envt) (s n : Z) (args : list Z) (st st' : state) (evs : list event) (status : status).
+  Hypothesis Hinv : Inv st.
+  Hypothesis Hrun : run_op (S f) env (OEmit s n args) st = (st', evs, status).
+
+  Lemma emit_unfold :
+    exists ch res,
+      emit_core f env s n (map VInt args) st = (st', ch, status, res) /\
+      evs = [EvEmit s n args ch (match status with Done => enc_bool res | Raised c => c end)].
+  Proof.
+    cbn [run_op] in Hrun. unfold emit_core.
+    destruct (emit_loop _ s n (handlers st s n) st false) as [[[st1 ch] s1] res] eqn:El.
+    inversion Hrun; subst. eauto.
+  Qed.
+
+  Lemma emit_exactly_once_in_order_proof :
+    exists ch out,
+      evs = [EvEmit s n args ch out] /\
+      sublist (called_keys ch) (keys st s n) /\
+      NoDup (called_keys ch) /\
+      (status = Done ->
+       forall h, In h (handlers st s n) -> In (h_key h) (keys st' s n) -> wargs_alive st' h ->
+                 count_occ Z.eq_dec (called_keys ch) (h_key h) = 1%nat).
+  Proof.
+    destruct emit_unfold as [ch [res [El ->]]].
+    eexists _, _. split; [reflexivity|]. exact (core_exactly_once _ _ _ _ _ _ _ _ _ _ Hinv El).
+  Qed.
+
+  Lemma dead_or_disconnected_never_called_proof :
+    exists ch out,
+      evs = [EvEmit s n args ch out] /\
+      (forall k, ~ In k (keys st s n) -> ~ In k (called_keys ch)) /\
+      (forall h, In h (handlers st s n) -> ~ wargs_alive st h -> ~ In (h_key h) (called_keys ch)).
+  Proof.
+    destruct emit_unfold as [ch [res [El ->]]].
+    eexists _, _. split; [reflexivity|]. exact (core_never_called _ _ _ _ _ _ _ _ _ _ Hinv El).
+  Qed.
+
   Lemma emit_result_is_or_proof :
     status = Done ->
     exists ch,
       evs = [EvEmit s n args ch (enc_bool (existsb ret_truthy (direct_calls ch)))] /\
       forall c, In c (direct_calls ch) -> c_ret c <> None.
   Proof.
-    intros Hd. destruct emit_spec as [ch [res [called [-> [Hl [Hsub [Hsig [Ha Hdone]]]]]]]].
-    destruct (Hdone Hd) as [_ [Hr ->]]. subst status. eauto.
+    intros Hd. destruct emit_unfold as [ch [res [El ->]]].
+    destruct (core_result _ _ _ _ _ _ _ _ _ _ Hinv El Hd) as [-> Hr]. subst status. eauto.
   Qed.
 
   Lemma args_order_proof :
@@ -741,13 +819,8 @@ Section Emit.
           c_argv c = map VObj (h_wargs h) ++ map VInt (h_uargs h) ++ map VInt args
                        ++ match h_uarg h with Some u => [VInt u] | None => [] end.
   Proof.
-    destruct emit_spec as [ch [res [called [-> [Hl [Hsub [Hsig [Ha Hdone]]]]]]]].
-    eexists _, _. split; [reflexivity|].
-    intros c Hc.
-    assert (Hin : In (c_key c, c_cb c, c_argv c) (map (fun h => (h_key h, h_cb h, argv_of h args)) called)).
-    { rewrite <- Hsig. apply (in_map (fun c => (c_key c, c_cb c, c_argv c))); auto. }
-    apply in_map_iff in Hin. destruct Hin as [h [He Hh]]. inversion He.
-    exists h. split; [eapply sublist_In; eauto|]. auto.
+    destruct emit_unfold as [ch [res [El ->]]].
+    eexists _, _. split; [reflexivity|]. exact (core_args _ _ _ _ _ _ _ _ _ _ Hinv El).
   Qed.
 End Emit.
 
